@@ -31,7 +31,10 @@ ROOTS = [
     ("x--5\nrest", "root_with_newline"),
 ]
 # name, initial qty, fill unit
-CFGS = [("lots", 2.0, 1.0), ("frac", 1.0, 0.5)]
+CFGS = [("lots", 2.0, 1.0), ("frac", 1.0, 0.5),
+        # same as "lots", but a Replaced report carries OrderQty / Price only when the replace changed them
+        # (both are optional in an ExecutionReport; the library's own comments allow their absence)
+        ("lots_sparse_replaced", 2.0, 1.0)]
 # presentation only (rotated by VERIF_SEED)
 PRES = [
     {"px": 100.0, "ticker": "MSFT", "side": "1", "acct": "A1"},
@@ -100,7 +103,7 @@ def leaves_of(e):
     return 0.0 if e.status in FINISHED else e.qty - e.cum
 
 
-def exec_report(e, env, exectype, clord, orig=None, last=None, ordstatus=None, answers=None):
+def exec_report(e, env, exectype, clord, orig=None, last=None, ordstatus=None, answers=None, omit=()):
     """Execution report as a hashable (msgtype, ((tag, value), ...), answers) record."""
     t = [(11, clord)]
     if orig is not None:
@@ -110,6 +113,8 @@ def exec_report(e, env, exectype, clord, orig=None, last=None, ordstatus=None, a
     if last is not None:
         t += [(32, str(last)), (31, str(e.px))]
     t += [(151, str(leaves_of(e))), (14, str(e.cum)), (6, str(e.px if e.cum > 0 else 0.0))]
+    if omit:
+        t = [x for x in t if x[0] not in omit]
     return ("8", tuple(t), answers)
 
 
@@ -213,8 +218,12 @@ def exch_act(e, ev, env):
             st = "9"
         else:
             st = "1" if e.cum > 0 else "0"
+        omit = ()
+        if env.get("sparse"):
+            omit = tuple(t for t, unchanged in ((38, nqty is None or qty == e.qty), (44, npx is None or px == e.px))
+                         if unchanged)
         e = e._replace(status=st, qty=qty, px=px, live=clord, pend=None)
-        return e, exec_report(e, env, "5", clord, orig=orig, answers=clord)
+        return e, exec_report(e, env, "5", clord, orig=orig, answers=clord, omit=omit)
     raise AssertionError(ev)
 
 
@@ -545,7 +554,7 @@ def make_env(root_i, cfg_i, pres, item=0, max_inflight=10 ** 6):
     cname, qty, unit = CFGS[cfg_i]
     env = dict(pres)
     env.update(root=root, shape=shape, cfg=cname, qty=qty, unit=unit, pres=dict(pres), item=item,
-               max_inflight=max_inflight)
+               max_inflight=max_inflight, sparse=cname.endswith("sparse_replaced"))
     return env
 
 
